@@ -760,6 +760,10 @@ func (b *builder) operation(tp tpl, atPathLevel map[string]bool, method string) 
 			// names are case-sensitive (outside headers): Q next to q is a different parameter
 			name = strings.ToUpper(name[:1]) + name[1:]
 		}
+		if in == "query" && b.cfg.Unusual && b.chance(4, "opnamemeta") {
+			// names with characters that mean something to a pattern matcher: a name is a name
+			name = b.pick([]string{"filter[]", "$f", "q(", "a.b", "opts)", "x+y", "back\\"}, "opnamemetav")
+		}
 		key := in + ":" + name
 		if seen[key] {
 			continue
